@@ -166,8 +166,8 @@ pub(crate) fn convert_svg(
     cache: &mut converter::Cache,
     parent: &mut Group,
 ) {
-    // We require original transformation to setup 'clipPath'.
-    let mut orig_ts = node.resolve_transform(AId::Transform, state);
+    // The caller has already created a group with the `transform`, `opacity`, `clip-path`,
+    // `mask` and `filter` of this element. They must not be resolved here for the second time.
     let mut new_ts = Transform::default();
 
     let x = node.convert_user_length(AId::X, state, Length::zero());
@@ -199,14 +199,37 @@ pub(crate) fn convert_svg(
     };
 
     if let Some(clip_rect) = get_clip_rect(node, node, state) {
-        let mut g = clip_element(node, clip_rect, orig_ts, state, cache);
+        let mut g = clip_element(node, clip_rect, Transform::default(), state, cache);
         g.abs_transform = parent.abs_transform;
-        convert_children(node, new_ts, &new_state, cache, false, &mut g);
+        convert_svg_children(node, new_ts, &new_state, cache, &mut g);
         g.calculate_bounding_boxes();
         parent.children.push(Node::Group(Box::new(g)));
     } else {
-        orig_ts = orig_ts.pre_concat(new_ts);
-        convert_children(node, orig_ts, &new_state, cache, false, parent);
+        convert_svg_children(node, new_ts, &new_state, cache, parent);
+    }
+}
+
+fn convert_svg_children(
+    node: SvgNode,
+    transform: Transform,
+    state: &converter::State,
+    cache: &mut converter::Cache,
+    parent: &mut Group,
+) {
+    if transform.is_identity() {
+        converter::convert_children(node, state, cache, parent);
+        return;
+    }
+
+    let mut g = Group {
+        transform,
+        abs_transform: parent.abs_transform.pre_concat(transform),
+        ..Group::empty()
+    };
+    converter::convert_children(node, state, cache, &mut g);
+    if g.has_children() {
+        g.calculate_bounding_boxes();
+        parent.children.push(Node::Group(Box::new(g)));
     }
 }
 
